@@ -14,7 +14,7 @@ def sh(c, **kw):
 
 
 def reset():
-    sh('git checkout -- . && git apply ' + FIX, cwd=R)
+    sh('git checkout -- .', cwd=R)
 
 
 MUTS = [
@@ -32,6 +32,8 @@ MUTS = [
  ("M12", "resolver error swallowed without an error entry", BX, "            self.add_error(err, path, node)\n            return None", "            return None"),
  ("M13", "HARMLESS: _seen_fragments rebinding repaired", CF, "    _seen_fragments = _seen_fragments or set()\n    grouped_fields = OrderedDict()  # type: GroupedFields\n\n    for selection in selections:\n        if isinstance(selection, ast.Field):\n            if _skip_selection(selection, variables):\n                continue\n\n            key = selection.response_name\n\n            if key not in grouped_fields:\n                grouped_fields[key] = []\n\n            grouped_fields[key].append(selection)\n\n        elif isinstance(selection, ast.InlineFragment):\n            if _skip_selection(\n                selection, variables\n            ) or not _fragment_type_applies(schema", "    _seen_fragments = set() if _seen_fragments is None else _seen_fragments\n    grouped_fields = OrderedDict()  # type: GroupedFields\n\n    for selection in selections:\n        if isinstance(selection, ast.Field):\n            if _skip_selection(selection, variables):\n                continue\n\n            key = selection.response_name\n\n            if key not in grouped_fields:\n                grouped_fields[key] = []\n\n            grouped_fields[key].append(selection)\n\n        elif isinstance(selection, ast.InlineFragment):\n            if _skip_selection(\n                selection, variables\n            ) or not _fragment_type_applies(schema"),
  ("M14", "argument cache keyed by node only (stale arguments across implementing types)", "src/py_gql/execution/wrappers.py", "        cache_key = field_definition, node\n", "        cache_key = node\n"),
+ ("S1", "seeded class: fragment marked visited BEFORE the spread's @skip/@include is evaluated", CF, "            if (\n                _skip_selection(selection, variables)\n                or name in _seen_fragments\n                or not _fragment_type_applies(schema, object_type, fragment)\n            ):\n                continue\n", "            if name in _seen_fragments:\n                continue\n            _seen_fragments.add(name)\n            if (\n                _skip_selection(selection, variables)\n                or not _fragment_type_applies(schema, object_type, fragment)\n            ):\n                continue\n"),
+ ("S3", "seeded class: _find_conflict tests isinstance(parent_1, ObjectType) twice", "src/py_gql/validation/rules/overlapping_fields_can_be_merged.py", "        and isinstance(parent_1, ObjectType)\n        and isinstance(parent_2, ObjectType)", "        and isinstance(parent_1, ObjectType)\n        and isinstance(parent_1, ObjectType)"),
 ]
 
 only = sys.argv[1:]
